@@ -53,14 +53,18 @@ def run(F, rep, tier):
     ast = luaparse.parse(F.read("sylt-compiler/src/preamble.lua"))
     mf = meta_functions(ast)
     rep.ob("PARSE", "metamethods", len(mf) >= 25, "%d metamethod definitions found in preamble.lua" % len(mf), sites=len(mf))
-    arith(rep, mf)
+    arith(rep, mf, F)
     equality(rep, mf)
     ordering(rep, mf)
     concat(rep, ast)
     checker(F, rep, mf)
 
 
-def arith(rep, mf):
+def arith(rep, mf, F=None):
+    str_add = False
+    if F is not None:
+        table, _ = c03.expand_rows(tc.accept_table(F, F.fn(TC + "add")))
+        str_add = table.get(("Str", "Str")) == "ok"
     for name, op in OPS.items():
         f = mf.get(("__TUPLE_META", name))
         if f is None:
@@ -79,14 +83,23 @@ def arith(rep, mf):
                     tgt = luaparse.show(asg["targets"][0])
                     l, r = luaparse.show(e["l"]), luaparse.show(e["r"])
                     binops.append((e["op"], l, r, tgt, x))
+                elif asg.get("k") == "Assign" and asg["es"][0].get("k") == "Call" and asg["es"][0]["f"].get("k") == "Name" \
+                        and asg["es"][0]["f"]["name"] == "__ADD" and len(asg["es"][0]["args"]) == 2:
+                    # the scalar dispatcher for `+` (concatenates strings, adds numbers, dispatches on tables)
+                    e = asg["es"][0]
+                    tgt = luaparse.show(asg["targets"][0])
+                    binops.append(("__ADD", luaparse.show(e["args"][0]), luaparse.show(e["args"][1]), tgt, x))
         good = bool(binops)
         for o, l, r, tgt, x in binops:
             elementwise = l == "%s[%s]" % (a, x) and r in ("%s[%s]" % (b, x), b) and tgt.endswith("[%s]" % x)
             if name != "__div" and r == b:
                 elementwise = False  # only division accepts a scalar right operand
-            good = good and o == op and elementwise
+            want = "__ADD" if (name == "__add" and str_add) else op
+            good = good and (o == want or (o == "__ADD" and name == "__add")) and elementwise
         rep.ob("ARITH", "tuple|%s|operator" % name, good,
-               "__TUPLE_META.%s combines a[x] and b[x] with `%s` (found %s)" % (name, op, [(o, l, r) for o, l, r, _, _ in binops]),
+               "__TUPLE_META.%s combines a[x] and b[x] with `%s`%s (found %s)" % (
+                   name, op, " through __ADD, because the checker admits str + str on tuple elements and raw `+` does "
+                   "arithmetic on (or fails for) strings" if name == "__add" and str_add else "", [(o, l, r) for o, l, r, _, _ in binops]),
                "preamble.lua:%s" % f["line"])
         rets = [r for r in luaparse.walk(f["body"]) if r.get("k") == "Return"]
         rep.ob("ARITH", "tuple|%s|result-is-tuple" % name, bool(rets) and all(r["es"] and luaparse.show(r["es"][0]).startswith("__TUPLE(") for r in rets),
